@@ -278,7 +278,11 @@ class DuplicateKernel(Transformation):
             if call_name in self.duplicate_kernels:
                 # Duplicate the call
                 new_call_name = f'{call_name}{self.suffix}'.lower()
-                new_item = new_dependencies[new_call_name]
+                new_item = new_dependencies.get(new_call_name)
+                if new_item is None:
+                    # The kernel is not a dependency of this item in the scheduler graph (e.g. the
+                    # item is not expanded or the kernel is blocked for it): nothing was duplicated
+                    continue
                 proc_symbol = new_item.ir.procedure_symbol.rescope(scope=routine)
                 call_map[call] = (call, call.clone(name=proc_symbol))
 
